@@ -27,7 +27,9 @@ FitsBits(num, shift, bits) ==
 SizeUnits == {"b", "B", "kb", "KB", "Kb", "kib", "KiB", "mb", "Mb", "MIB", "gb", "GiB", "tb", "TB", "tib"}
 IntervalUnits == {"second", "seconds", "SECONDS", "Minute", "minutes", "hour", "HOURS", "day", "Days", "week", "weeks",
                   "month", "MONTHS", "year", "Years"}
-JunkUnits == {"k", "kbs", "bytes", "sec", "s", "fortnight", "kb x", "b1", "pb"}
+\* "~" stands for U+212A KELVIN SIGN (lower-cases to "k" under full Unicode case folding), "^" for U+017F LATIN
+\* SMALL LETTER LONG S (upper-cases to "S"): units are ASCII case-insensitive only, so these are junk
+JunkUnits == {"k", "kbs", "bytes", "sec", "s", "fortnight", "kb x", "b1", "pb", "~b", "~ib", "wee~", "wee~s", "^econd", "^econds", "m^"}
 Lower(u) == CASE u \in {"b", "B"} -> "b" [] u \in {"kb", "KB", "Kb"} -> "kb" [] u \in {"kib", "KiB"} -> "kib"
               [] u \in {"mb", "Mb"} -> "mb" [] u = "MIB" -> "mib" [] u = "gb" -> "gb" [] u = "GiB" -> "gib"
               [] u \in {"tb", "TB"} -> "tb" [] u = "tib" -> "tib"
